@@ -63,7 +63,7 @@ pub fn decide<F: Fn(usize) -> bool>(d: &[Dir], nt: usize, tlen: &[i32], pfx: F) 
     (best > -2, best_l, best)
 }
 
-/// `would_enable` and `default_level` against the oracle.
+/// `would_enable` and `default_level` against the oracle; `max_level_hint` is a sound bound for what is enabled.
 /// -> (some directive applies, enabled, specificity of the deciding directive, level rank of the query)
 pub fn check_we(t: Targets, d: &[Dir], nt: usize, tlen: &[i32], pfx_col: &[bool], qstr: &'static str) -> (bool, bool, i32, u8) {
     let lr = any_level_rank();
@@ -76,6 +76,16 @@ pub fn check_we(t: Targets, d: &[Dir], nt: usize, tlen: &[i32], pfx_col: &[bool]
     match t.default_level() {
         Some(f) => assert!(has_default && f == filter(dl)),
         None => assert!(!has_default),
+    }
+    // the level hint is a SOUND upper bound: whatever the filter enables is not above the hint (the global max level
+    // is computed from it, so a hint that is too low drops enabled events at the callsite). Soundness only, not
+    // tightness: the known finding `targets_stale_max_level` (hint stale-HIGH after a duplicate key lowered a
+    // directive) does not trip this; a hint left stale-LOW after a duplicate key RAISED a directive does.
+    let hs = <Targets as Subscribe<NoSpans>>::max_level_hint(&t);
+    let hf = <Targets as Filter<NoSpans>>::max_level_hint(&t);
+    assert!(hs == hf);
+    if let Some(h) = hs {
+        assert!(!want || level(lr) <= h);
     }
     (some, want, spec, lr)
 }
